@@ -236,6 +236,10 @@ class C31(UICheck):
                         session(kind, [go, cmd("", [c, str(v)], [{"kind": "num", "v": v}])])
                     for t, a in NUM_SPECIAL[:5]:
                         session(kind, [go, cmd("", [c, t], [a])])
+                    if pos in (0, 3, L - 1):
+                        # decimal is the only base: zero padded numbers (also with the digits 8 and 9), prefixes, underscores
+                        for t in ("08", "009", "010", "0011", "0x2", "0b10", "0o7", "1_0", "0_1"):
+                            session(kind, [go, cmd("", [c, t])])
                 for pat in ("addi", "x1, x0", "Block 2", "Block", "zzz", "93 00", "x9"):
                     session(kind, [go, cmd("", ["find"] + pat.split(" "), pat=pat)])
                 session(kind, [go, cmd("", ["find", "[", "x"])])
@@ -357,9 +361,21 @@ class C24(UICheck):
                     if tier == "quick" and n % 2 and n > 9:
                         continue
                     session(kind, [cmd("", ["entry"]), cmd("", ["e"])] + [cmd("", ["s"])] * steps + [rend(n)])
+            # the mode's own (long-lived) view rendered before and after every state change: nothing about a view's
+            # height may be remembered across renders (the register view grows with every newly written register)
+            for n in range(6, L + 12):
+                if tier == "quick" and n % 3 == 0:
+                    continue
+                ls = [cmd("", ["entry"]), cmd("", ["e"]), rend(n)]
+                for _ in range(4):
+                    ls += [cmd("", ["s"]), rend(n)]
+                ls += [cmd("", ["regmod", "x1"], filler="5"), rend(n), cmd("", ["q"]), rend(n), cmd("", ["d", "1"]), rend(n)]
+                session(kind, ls)
             for key in ("memory", "nokey"):
                 session(kind, [cmd("", ["entry"]), cmd("", ["e"]), cmd("", ["s"]), cmd("", ["memory", key])] +
                         [rend(n) for n in (5, 6, 7, 8, 12, 40, 200)])
+                session(kind, [cmd("", ["entry"]), cmd("", ["e"]), rend(9), cmd("", ["s"]), cmd("", ["memory", key]), rend(9),
+                               cmd("", ["q"]), rend(9), cmd("", ["s"]), rend(9), cmd("", ["memory", key]), rend(7)])
         layouts = [[], [[0, 8]], [[5, 8]], [[0, 8], [64, 4]], [[16, 8], [24, 8], [32, 8]], [[0, 8], [4096, 8], [65536, 2]],
                    [[i * 40, 8] for i in range(12)], [[8, 1], [300, 8], [301, 2]]]
         for nregs in range(0, 34):
